@@ -169,6 +169,14 @@ def body(ch, ctx):
                         if not ok:
                             ctx.fail("%s-differ" % which, dict(sig, level=level, ordered=ob is not None, filtered=ft is not None),
                                      text=text, node=names[x], level=level, featuretype=ft, order_by=ob, got=got, expected=want)
+        # the same questions with positional arguments, in the documented order (id, level, featuretype, order_by, reverse)
+        for level in (None, 1, 2):
+            kw_c = [f.id for f in db.children(names[x], level=level, featuretype="exon", order_by="start", reverse=True)]
+            pos_c = [f.id for f in db.children(names[x], level, "exon", "start", True)]
+            kw_p = [f.id for f in db.parents(names[x], level=level, featuretype=("gene", "mRNA"), order_by="start", reverse=False)]
+            pos_p = [f.id for f in db.parents(names[x], level, ("gene", "mRNA"), "start", False)]
+            ctx.check(kw_c == pos_c and kw_p == pos_p, "positional-call-differs-from-keyword-call", dict(sig, level=level), text=text,
+                      node=names[x], children=[kw_c, pos_c], parents=[kw_p, pos_p])
         # Feature object as argument
         got = sorted(f.id for f in db.children(db[names[x]]))
         ctx.check(got == sorted(names[c] for c in (l1[x] | l2[x]) if c != x), "children-differ",
